@@ -176,6 +176,37 @@ def compare(case, model):
     return True, (None if ie == me or _cls(ie) == "ok" else "variant differs: impl %s model %s" % (ie, me))
 
 
+LAST_RESULTS = {}
+
+
+def encoder_admissibility(chk):
+    """For every frame the encoder produced (struct cases with src == encoder) the model must
+    find the parsed tree well-formed (wf), RFC-valid (spec) and canonically serialised
+    (rewritten == bytes): this is what makes the Coq theorems about well-formed frame trees
+    apply to the encoder's actual output.  Uses the results of the last struct model_diff."""
+    cases, res = LAST_RESULTS.get("struct", ([], []))
+    n = bad = 0
+    for c, r in zip(cases, res):
+        if c.get("src") != "encoder" or r is None:
+            continue
+        n += 1
+        why = None
+        if r.get("end") != "ok":
+            why = "model parser: %s" % r.get("end")
+        elif not r.get("wf", True):
+            why = "frame tree not well-formed per the model"
+        elif not r.get("spec", True):
+            why = "frame not RFC-valid per the model"
+        elif r.get("rewritten") not in (None, "", "!") and r.get("rewritten") != c["bytes"]:
+            why = "model re-serialisation differs from the encoder's bytes"
+        if why:
+            bad += 1
+            if bad <= 3:
+                chk.violation("encoder-output-not-admissible", "a frame produced by the encoder is outside the model's admissible set: %s" % why,
+                              {"frame_hex": c["bytes"], "si": c.get("si"), "model": {k: v for k, v in r.items() if k not in ("decoded", "pcm")}, "reason": why})
+    return n, bad
+
+
 def model_diff(chk, kind, cases, stage, property_holds=None):
     """Run the integrator's extracted model over `cases` of one kind and diff.
     property_holds(case) -> bool|None lets the searcher decide a disagreement (True: the property
@@ -192,6 +223,7 @@ def model_diff(chk, kind, cases, stage, property_holds=None):
         chk.broken_tie("model-run:" + kind, "model returned %d results for %d cases" % (len(res), len(cases)))
         return 0, 0
     dis = soft = 0
+    LAST_RESULTS[kind] = (cases, res)
     for c, r in zip(cases, res):
         bad, note = codec_common.compare(c, r)
         if note:
@@ -266,6 +298,10 @@ def simple_check(chk, pid, binname, profiles, kinds, rule, assumptions, evaluati
         "searcher": by_prof,
         "samples": [{k: (v if not isinstance(v, str) else v[:400]) for k, v in x.items() if k != "t"} for x in (c.samples[:2] + [{kk: vv for kk, vv in cs.items() if kk in ("kind", "profile", "bytes", "end", "ch", "bps", "rate", "block", "frame_bytes", "assignment", "tags", "src")} for cs in c.cases[:3]])],
     }
+    if proof_ok and "struct" in kinds:
+        n, bad = encoder_admissibility(chk)
+        cov["encoder_frames_checked_admissible"] = n
+        cov["encoder_frames_not_admissible"] = bad
     if extra:
         cov.update(extra(c, by_prof))
     chk.coverage.update(cov)
